@@ -138,7 +138,7 @@ func hasPrefixUnicode(s, prefix string) (bool, bool) {
 	// The max difference in encoded lengths between cases is 2 bytes for
 	// [kK] (1 byte) and Kelvin 'K' (3 bytes).
 	n := len(s)
-	if len(prefix) > n*3 || (len(prefix) > n*2 && !containsKelvin(prefix)) {
+	if int64(len(prefix)) > int64(n)*3 || (int64(len(prefix)) > int64(n)*2 && !containsKelvin(prefix)) {
 		return false, true
 	}
 
@@ -187,7 +187,7 @@ func TrimPrefix(s, prefix string) string {
 	// The max difference in encoded lengths between cases is 2 bytes for
 	// [kK] (1 byte) and Kelvin 'K' (3 bytes).
 	n := len(s)
-	if n*3 < len(prefix) || (n*2 < len(prefix) && !containsKelvin(prefix)) {
+	if int64(n)*3 < int64(len(prefix)) || (int64(n)*2 < int64(len(prefix)) && !containsKelvin(prefix)) {
 		return s
 	}
 
@@ -254,7 +254,7 @@ func hasSuffixUnicode(s, suffix string) (bool, int) {
 	if nt == 0 {
 		return true, ns
 	}
-	if ns*3 < nt || (ns*2 < nt && !containsKelvin(suffix)) {
+	if int64(ns)*3 < int64(nt) || (int64(ns)*2 < int64(nt) && !containsKelvin(suffix)) {
 		return false, 0
 	}
 
@@ -564,7 +564,7 @@ func Index(s, substr string) int {
 	case n == size:
 		return IndexRune(s, r)
 	case n >= len(s):
-		if n > len(s)*3 {
+		if int64(n) > int64(len(s))*3 {
 			return -1
 		}
 		// Match here is possible due to upper/lower case runes
@@ -580,7 +580,7 @@ func Index(s, substr string) int {
 		// Kelvin K is three times the size of ASCII [Kk] so we need
 		// to check for it to see if the longer needle (substr) could
 		// possibly match the shorter haystack (s).
-		if n > len(s)*2 && !containsKelvin(substr) {
+		if int64(n) > int64(len(s))*2 && !containsKelvin(substr) {
 			return -1
 		}
 		// NB: until disproven this is sufficiently fast (and maybe fastest)
@@ -767,10 +767,10 @@ func LastIndex(s, substr string) int {
 		// TODO: indexRabinKarpRevUnicode might be faster here
 		return lastIndexRune(s, r)
 	case n >= len(s):
-		if n > len(s)*3 {
+		if int64(n) > int64(len(s))*3 {
 			return -1
 		}
-		if n > len(s)*2 && !containsKelvin(substr) {
+		if int64(n) > int64(len(s))*2 && !containsKelvin(substr) {
 			return -1
 		}
 		// fallthrough
